@@ -84,6 +84,20 @@ CHECKS = {
         "Tolerance band (0, 1e-5) for implied negative compartments is outside the alphabet (see evidence assumptions).",
         "5/C07",
     ),
+    "C09": (
+        "model_checking",
+        "paired-run enumeration over every intervention kind x every start year on/off the time grid x dt on the real simulator; all outputs before the start year compared bit-for-bit",
+        "For each representative model and step size, every intervention kind named in the property is applied with every possible start year Y (each grid point, an off-grid point after each grid point, before the start, after the end) and all outputs at all indices with t < Y are compared exactly with the run without the intervention.",
+        "Three model families (not the whole structure space); exact comparison restricted to correctly rounded function alphabets (see assumptions).",
+        "5/C09",
+    ),
+    "C10": (
+        "model_checking",
+        "explicit-state exploration of restart chains (restart of a restart) from every grid year on the real code; each restarted run compared with the tail of its parent at every index",
+        "States are (model, chain of restart years); from each state every grid year is used to save and restart, depth 2/3, and every restarted trajectory is compared with the tail of its parent for all stocks, elapsed-time bins, flows, parameters and characteristics; the calibration-spreadsheet route is taken from every first-level state.",
+        "Model families listed in the evidence; tolerance 1e-10 for the in-memory route because the restarted time grid may differ in the last bit.",
+        "5/C10",
+    ),
 }
 
 PENDING_REASON = "check not built yet in this session (see DESIGN.md section 8 for the build order); no claim is made"
